@@ -30,10 +30,11 @@ META = {
 QUICK_PLAN = [
     ("array", "small", {"order": "shuffle", "cores": 2}),
     ("tree", "small", {"order": "shuffle", "churn": True}),
-    ("compact", "small", {"keep_empty": True}),
-    ("compact", "groups", {"keep_empty": False, "extra_ns": True}),
+    ("compact", "groups", {"keep_empty": True, "extra_ns": True}),
 ]
 THOROUGH_PLAN = QUICK_PLAN + [
+    ("compact", "small", {"keep_empty": True}),
+    ("compact", "groups", {"keep_empty": False, "extra_ns": False}),
     ("array", "groups", {"order": "desc", "cores": 1}),
     ("tree", "groups", {"order": "asc"}),
     ("tree", "wide", {"order": "desc", "churn": True}),
@@ -107,8 +108,8 @@ def run(ctx):
         rule="binding A: for every index content (all functions 3 tokens -> subsets of 3 (quick) / 4 (thorough) keys) "
              "and every query tree of the exported set (leaves all/absent token/prefixes/empty; unions and "
              "intersections of arity 0-3; key ranges incl. empty, inverted and out-of-universe windows; depth-2 "
-             "combinations), on ArrayIndex, TreeIndex (with insert/remove churn) and compact posting lists (two or "
-             "three concretisation tables), every sequence of Next / Advance(k), k over all ranks incl. below, "
+             "combinations), on ArrayIndex, TreeIndex (with insert/remove churn) and compact posting lists (one to "
+             "three concretisation tables per kind), every sequence of Next / Advance(k), k over all ranks incl. below, "
              "above and between stored keys, up to depth 2 (depth 3 for a seeded eighth of the index contents; "
              "thorough: depth 3 / 4 with 3 keys, 2 / 3 with 4 keys) plus Next-to-the-end runs after every first "
              "call, is executed on a freshly compiled iterator and every result compared with "
